@@ -99,13 +99,21 @@ def dist_rows(ctx, report=None):
                 ('MADEMoG', mixture.MADEMoG(D, 16, 2, num_blocks=2, num_mixture_components=4, custom_initialization=True), 2),
                 ('MADEMoG/noctx', mixture.MADEMoG(D, 16, None, num_blocks=2, num_mixture_components=4, custom_initialization=True), None),
                 ('Flow(affine,MADEMoG)', Flow(T.PointwiseAffineTransform(0.5, 2.0), mixture.MADEMoG(D, 8, None, num_blocks=1, num_mixture_components=2)), None),
-                ('MaskedAutoregressiveFlow', MaskedAutoregressiveFlow(D, 8, 2, 1), None)]
+                ('MaskedAutoregressiveFlow', MaskedAutoregressiveFlow(D, 8, 2, 1), None),
+                # a conditional flow with an embedding network (the context batch below REPEATS a row, not grouped and not sorted)
+                ('Flow(MAAT,StandardNormal,embedding_net)', Flow(T.MaskedAffineAutoregressiveTransform(D, 8, context_features=3, num_blocks=1),
+                                                                normal.StandardNormal([D]), embedding_net=torch.nn.Sequential(torch.nn.Linear(2, 3), torch.nn.Tanh())), 2),
+                ('Flow(affine,ConditionalDiagonalNormal,embedding_net)', Flow(T.PointwiseAffineTransform(0.5, 2.0), normal.ConditionalDiagonalNormal([D]),
+                                                                              embedding_net=torch.nn.Linear(2, 2 * D)), 2)]
     for dt in (torch.float32, torch.float64):
         for name, d, cw in mk():
             d = d.to(dt); d.eval()
             x = torch.randn(4, D, generator=gen, dtype=torch.float64).to(dt)
             x[2] = torch.tensor([20.0, -18.0, 19.0], dtype=dt)            # one row far in the tails (finite log-density in both precisions)
             c = None if cw is None else (0.5 * torch.randn(4, cw, generator=gen, dtype=torch.float64)).to(dt)
+            if c is not None:
+                c[3] = c[0] + 1.0       # rows in decreasing-then-increasing order ...
+                c[2] = c[0]             # ... with one row occurring twice, not adjacent
             tol = dict(rtol=2e-5, atol=2e-5) if dt == torch.float32 else dict(rtol=1e-10, atol=1e-10)
             try:
                 with torch.no_grad():
@@ -155,9 +163,26 @@ def direct(ctx, entries=None, count=False):
                     ctx.case(key=('direct-rows', e.name, inverse), branch='direct-row-vs-batch', nontrivial=True, n=int(x.numel()))
                 cls = e.name.split('/')[0]
                 tol = dict(rtol=1e-7, atol=1e-9) if 'UMNN' not in e.name else dict(rtol=1e-3, atol=1e-4)
+                if e.spline.get('fam') == 'cubic' and inverse:
+                    # the trigonometric / Cardano root is accurate to ~sqrt(ulp) only (declared eps = 1e-5 of the root selection); torch's
+                    # vectorised kernels differ in the last ulp between batch lengths and the root amplifies that
+                    tol = dict(rtol=1e-4, atol=1e-4)
+                def same_row(ya, la, yb, lb, xi, ci):
+                    """equal within tolerance — or, for an inverse at an ill-conditioned point (a nearly flat bin: |log-det| in the teens), both
+                    answers are preimages of the row in the backward-error sense (forward of each returns the row and the negated log-det)"""
+                    if torch.allclose(ya, yb, **tol) and torch.allclose(la, lb, **tol):
+                        return True
+                    if not inverse or not bool(torch.isfinite(ya).all() and torch.isfinite(yb).all()):
+                        return False
+                    for yy, ll in ((ya, la), (yb, lb)):
+                        kf, fy, fl = R.impl_call(copy.deepcopy(t), yy, ci, False)
+                        if kf != 'ok' or not torch.allclose(fy, xi, rtol=1e-8, atol=1e-8) or not torch.allclose(fl, -ll, rtol=1e-5, atol=1e-5):
+                            return False
+                    return True
                 for i in (0, B - 1):
-                    k1, y1, l1 = R.impl_call(copy.deepcopy(t), x[i:i + 1], c[i:i + 1] if c is not None else None, inverse)
-                    if k1 != 'ok' or not torch.allclose(y1, y[i:i + 1], **tol) or not torch.allclose(l1, ld[i:i + 1], **tol):
+                    ci = c[i:i + 1] if c is not None else None
+                    k1, y1, l1 = R.impl_call(copy.deepcopy(t), x[i:i + 1], ci, inverse)
+                    if k1 != 'ok' or not same_row(y1, l1, y[i:i + 1], ld[i:i + 1], x[i:i + 1], ci):
                         ctx.fail('row %d of the batch result differs from evaluating the row alone' % i, {'entry': e.name, 'inverse': inverse, 'x': x.reshape(-1).tolist()[:12]},
                                  match={'class': cls, 'symptom': 'row-dependence'})
                         break
@@ -177,7 +202,7 @@ def direct(ctx, entries=None, count=False):
                     if kn_ == 'ok':
                         for i in (0, B - 1):
                             k1, y1, l1 = R.impl_call(copy.deepcopy(t), x[i:i + 1], c[i:i + 1] if c is not None else None, inverse)
-                            if k1 != 'ok' or not torch.allclose(y1, yn[i:i + 1], **tol) or not torch.allclose(l1, ln[i:i + 1], **tol):
+                            if k1 != 'ok' or not same_row(y1, l1, yn[i:i + 1], ln[i:i + 1], x[i:i + 1], c[i:i + 1] if c is not None else None):
                                 ctx.fail('row %d of a non-contiguous batch differs from evaluating the row alone' % i,
                                          {'entry': e.name, 'inverse': inverse, 'layout': 'noncontiguous', 'x': x.reshape(-1).tolist()[:12]},
                                          match={'class': cls, 'symptom': 'row-dependence', 'layout': 'noncontiguous'})
